@@ -11,6 +11,22 @@ configuration = (kind, tx_delay, rx_delay, contexts)
   contexts 1 = producer and consumer code in one std.sequential context (producer code first),
            "1r" = one context, consumer code first, 2 = two contexts on the same clock
 
+Usage-idiom kinds (always two contexts; event pulses only; `<x>` = flag | mailbox):
+  <x>_chold_a   consumer:  await x.is_set(); if hold: await go;            take; got ^= True; x.clear()
+  <x>_chold_b   consumer:  await x.is_set(); if hold: await go  else: mark ^= True;  take; got ^= True; x.clear()
+  <x>_chold_c   consumer:  if hold: await go;   (data =) await x.receive(); got ^= True
+  <x>_phold_a   producer:  await send_req; await x.is_clear(); if hold: await go;   x.set()/send(data); sent ^= True
+  <x>_phold_b   producer:  if hold: await go;   await x.is_clear(); x.set()/send(data); sent ^= True
+                (the other side is a plain process: set/send while is_clear() resp. take while recv_rdy and is_set())
+  with_r0..r4   consumer takes a SyncFlag-guarded payload signal through a helper coroutine whose body is
+                `async with flag:` with  r0 no return / r1 unconditional return / r2 conditional early return
+                (condition = environment input `discard`) / r3 return inside a nested if / r4 return in both branches.
+                The process uses the helper as `if await take(): got ^= True` (r2, r3, r4, r1c), `await take()` (r0) or
+                `ok = await take()` + `if ok:` (r1; r1c is the same helper behind `if await take():`, whose result is a
+                compile-time constant).
+                A discarded event is reported on `dropped` (it has been handed to the consumer all the same).
+  extra environment inputs: hold, go  resp.  discard, discard2  (every combination each clock)
+
 All observations are registered outputs written by the context that makes the observation, so what the monitor
 reads after a clock is exactly what that context saw at the clock edge:
   p_clear/p_set   producer's is_clear()/is_set()      issued   producer called set()/send() at this edge
@@ -21,7 +37,35 @@ Coroutine kinds only produce the event pulses (sent, saw_clear, got) and payload
 from __future__ import annotations
 
 KINDS = ("flag", "flag_force", "mailbox", "flag_coro", "flag_with", "mailbox_coro")
+IDIOMS = tuple(f"{x}_{k}" for x in ("flag", "mailbox") for k in ("chold_a", "chold_b", "chold_c", "phold_a", "phold_b")) + \
+    ("with_r0", "with_r1", "with_r1c", "with_r2", "with_r3", "with_r4")
 DATA_W = 2
+QUICK_IDIOM_DELAYS = [(0, 0), (1, 1), (0, 1), (1, 0), (1, 2), (2, 1)]
+
+
+def is_idiom(cfg):
+    return cfg[0] in IDIOMS
+
+
+def extra_inputs(cfg):
+    """names of the additional environment inputs of a configuration (in choice order)"""
+    k = cfg[0]
+    if "hold" in k:
+        return ("hold", "go")
+    if k in ("with_r2", "with_r4"):
+        return ("discard",)
+    if k == "with_r3":
+        return ("discard", "discard2")
+    return ()
+
+
+def uses_rdy(cfg):
+    k = cfg[0]
+    return not ("chold" in k or k.startswith("with_r"))
+
+
+def has_payload(cfg):
+    return cfg[0].startswith("mailbox") or cfg[0].startswith("with_r")
 
 
 def configs(thorough):
@@ -34,6 +78,11 @@ def configs(thorough):
                     if ctxs != 2 and kind.endswith(("coro", "with")):
                         continue  # two coroutines cannot share one context function
                     out.append((kind, tx, rx, ctxs))
+    for kind in IDIOMS:
+        for tx in range(dmax + 1):
+            for rx in range(dmax + 1):
+                if thorough or (tx, rx) in QUICK_IDIOM_DELAYS:
+                    out.append((kind, tx, rx, 2))
     return out
 
 
@@ -43,11 +92,11 @@ def key(cfg):
 
 
 def is_mailbox(cfg):
-    return cfg[0].startswith("mailbox")
+    return has_payload(cfg)
 
 
 def is_coro(cfg):
-    return cfg[0].endswith(("coro", "with"))
+    return cfg[0].endswith(("coro", "with")) or is_idiom(cfg)
 
 
 def _kw(tx, rx):
@@ -63,7 +112,167 @@ from cohdl import std, Bit, BitVector, Port, Null
 """
 
 
+def render_idiom(cfg):
+    kind, tx, rx, _ = cfg
+    payload = has_payload(cfg)
+    own_payload = kind.startswith("with_r")            # SyncFlag + a payload signal of the wrapper
+    mb = kind.startswith("mailbox")
+    T = f"BitVector[{DATA_W}]"
+    ports = """    clk = Port.input(Bit)
+    send_req = Port.input(Bit)
+    recv_rdy = Port.input(Bit)
+    sent = Port.output(Bit, default=False)
+    got = Port.output(Bit, default=False)
+    dropped = Port.output(Bit, default=False)
+    mark = Port.output(Bit, default=False)
+"""
+    for n in extra_inputs(cfg):
+        ports += f"    {n} = Port.input(Bit)\n"
+    if payload:
+        ports += f"""    data = Port.input({T})
+    sent_data = Port.output({T}, default=Null)
+    got_data = Port.output({T}, default=Null)
+"""
+    obj = f"std.Mailbox[{T}]({_kw(tx, rx)})" if mb else f"std.SyncFlag({_kw(tx, rx)})"
+    decl = f"        x = {obj}\n"
+    if own_payload:
+        decl += f"        payload = Signal[{T}](Null, name=\"payload\")\n"
+
+    def ind(text, n):
+        return "\n".join((" " * n + l if l else l) for l in text.split("\n"))
+
+    # ---- the sending statement / the taking statement, at indentation 0
+    if mb:
+        send = "x.send(self.data)\nself.sent_data <<= self.data\nself.sent ^= True"
+        take = "self.got_data <<= x.data()"
+    elif own_payload:
+        send = "payload.next = self.data\nx.set()\nself.sent_data <<= self.data\nself.sent ^= True"
+        take = "self.got_data <<= payload"
+    else:
+        send = "x.set()\nself.sent ^= True"
+        take = ""
+    plain_producer = f"""        @std.sequential(clk)
+        def producer():
+            if self.send_req and x.is_clear():
+{ind(send, 16)}
+"""
+    plain_consumer = f"""        @std.sequential(clk)
+        def consumer():
+            if self.recv_rdy and x.is_set():
+{ind(take or "pass", 16)}
+                x.clear()
+                self.got ^= True
+"""
+    idiom = kind.split("_", 1)[1] if not own_payload else kind[5:]
+    if idiom in ("chold_a", "chold_b"):
+        orelse = "" if idiom == "chold_a" else "            else:\n                self.mark ^= True\n"
+        cons = f"""        @std.sequential(clk)
+        async def consumer():
+            await x.is_set()
+            if self.hold:
+                await self.go
+{orelse}{ind(take, 12)}
+            self.got ^= True
+            x.clear()
+"""
+        body = plain_producer + "\n" + cons
+    elif idiom == "chold_c":
+        recv = "self.got_data <<= await x.receive()" if mb else "await x.receive()"
+        cons = f"""        @std.sequential(clk)
+        async def consumer():
+            if self.hold:
+                await self.go
+            {recv}
+            self.got ^= True
+"""
+        body = plain_producer + "\n" + cons
+    elif idiom == "phold_a":
+        prod = f"""        @std.sequential(clk)
+        async def producer():
+            await self.send_req
+            await x.is_clear()
+            if self.hold:
+                await self.go
+{ind(send, 12)}
+"""
+        body = prod + "\n" + plain_consumer
+    elif idiom == "phold_b":
+        prod = f"""        @std.sequential(clk)
+        async def producer():
+            if self.hold:
+                await self.go
+            await x.is_clear()
+{ind(send, 12)}
+"""
+        body = prod + "\n" + plain_consumer
+    else:
+        helper = {
+            "r0": """            async def take():
+                async with x:
+                    self.got_data <<= payload
+""",
+            "r1": """            async def take():
+                async with x:
+                    self.got_data <<= payload
+                    return True
+""",
+            "r2": """            async def take():
+                async with x:
+                    if self.discard:
+                        self.dropped ^= True
+                        return False
+                    self.got_data <<= payload
+                return True
+""",
+            "r3": """            async def take():
+                async with x:
+                    if self.discard:
+                        if self.discard2:
+                            self.dropped ^= True
+                            return False
+                        self.mark ^= True
+                    self.got_data <<= payload
+                return True
+""",
+            "r4": """            async def take():
+                async with x:
+                    if self.discard:
+                        self.dropped ^= True
+                        return False
+                    else:
+                        self.got_data <<= payload
+                        return True
+""",
+        }
+        helper = helper["r1" if idiom == "r1c" else idiom]
+        if idiom == "r0":
+            use = "            await take()\n            self.got ^= True\n"
+        elif idiom == "r1":
+            use = "            ok = await take()\n            if ok:\n                self.got ^= True\n"
+        else:
+            use = "            if await take():\n                self.got ^= True\n"
+        # the helper is a local coroutine of architecture(): define it before the process
+        helper = "\n".join(l[4:] for l in helper.split("\n"))
+        cons = f"""{helper}
+        @std.sequential(clk)
+        async def consumer():
+{use}"""
+        body = plain_producer + "\n" + cons
+    return f"""{HEADER}from cohdl import Signal
+
+
+class T(cohdl.Entity):
+{ports}
+    def architecture(self):
+        clk = std.Clock(self.clk)
+{decl}
+{body}
+"""
+
+
 def render(cfg):
+    if is_idiom(cfg):
+        return render_idiom(cfg)
     kind, tx, rx, ctxs = cfg
     mb = is_mailbox(cfg)
     obj = f"std.Mailbox[BitVector[{DATA_W}]]({_kw(tx, rx)})" if mb else f"std.SyncFlag({_kw(tx, rx)})"
